@@ -29,7 +29,7 @@ def run(ctx):
     ops = tables.all_table_ops(ctx, s, ("put", "put_with_flags", "delete", "clear", "append"), within=scope)
     ctx.floor("C18.remove_event.table-ops", len(ops), 7)
     bad = [(f, b, info, t) for f, b, info, t, key, conds in ops
-           if not (info["callee"].endswith("::delete") and t in tables.INDEX_TABLES)]
+           if not (info["callee"].endswith("::delete") and t.rsplit(".", 1)[-1] in tables.INDEX_TABLES)]
     if bad:
         f, b, info, t = bad[0]
         s.add("S-EFFECT", f, "remove-only-deletes-index-entries", t, info["sp"], VIOLATION,
@@ -57,6 +57,9 @@ def run(ctx):
     lifecycle.ephemeral_not_indexed(ctx, s)
     lifecycle.kind_classes(ctx, s)
     tables.removal_funnel(ctx, s)
+    # vanish enumerates its targets with find_events: the query's own screen wrapper must not drop events by itself
+    from .C05 import screen_closure
+    screen_closure(ctx, s, ctx.fn("pocket_db::Store::find_events"))
 
 
 def vanish_filters(ctx, s):
